@@ -23,11 +23,35 @@ PARSE_DOCS = [
     "<div class=\"c\">d<br/>e</div>\n<ref name=r>x</ref>\n: indent\n",
     "text __NOTOC__ &amp; <!-- c --> end\n\nnew para\n*list end",
 ]
+if os.environ.get("VERIF_TIER") == "thorough":
+    Q = chr(39)
+    PARSE_DOCS += [
+        "* a\n*# b\n*#: c\n; t\n: d\n",
+        "{| class=\"wikitable\" style=\"x\"\n|+ cap\n|-\n! scope=\"col\" | h\n|-\n| a\n| b\n|}",
+        "<pre>\n== not heading ==\n</pre>\n== heading ==\n",
+        "[[File:x.png|thumb|caption with [[link]] and {{a|1}}]]",
+        Q * 5 + "both" + Q * 5 + " " + Q * 2 + "i" + Q * 3 + "b" + Q * 3 + "i" + Q * 2 + "\n" + Q * 3 + "unclosed\n",
+        "<ul><li>one<li>two</ul><table><tr><td>c</td></tr></table>",
+        "{{#switch:x|a=1|#default=d}} {{#tag:ref|note}} {{{1|{{a}}}}}",
+        "<math>x^2</math> <span id=\"i\">s</span> <!--c--> text&nbsp;more",
+        "= L1 =\n====== L6 ======\n----\n== L2 ==\n#REDIRECT [[x]]\n",
+        "http://example.com/path [mailto:x@y z] [[a|b]]c\n",
+    ]
 EXPAND_DOCS = [
     "{{a|q}} [[l|{{b|x=1}}]] <nowiki>''</nowiki> {{#if:x|y|z}} {{{u|v}}} {{missing}}",
     "{{c}}{{c|1}}\n== h ==\n{{#expr: 1 + 2}}{{lc:ABC}}",
     "{{a}}{{a}}{{a|<nowiki>|</nowiki>}}",
 ]
+
+
+if os.environ.get("VERIF_TIER") == "thorough":
+    EXPAND_DOCS += [
+        "{{a|{{a|{{a|x}}}}}} {{b|x={{c|1}}}}",
+        "{{#ifeq:{{c}}|n|same|diff}} {{#len:{{a|zz}}}} {{padleft:7|3}}",
+        "{{a|1=one|1=two}} {{a| spaced }} {{c| }}",
+        "<nowiki>{{a}}</nowiki>{{a|<nowiki/>}} [[x|{{c}}]] [http://x {{c|1}}]",
+        "{{{undefined}}} {{{undefined|}}} {{missing|{{a}}}}",
+    ]
 
 
 def make_ctx():
@@ -128,263 +152,3 @@ def find_history(kind: str, idx: int, pre_expand: bool):
                 return (f"history: start_page('Dirty'); {how}({dirty!r}); start_page('T'); {kind}({docs[idx]!r}{', pre_expand=True' if pre_expand else ''})", True, f"page result depends on the previously processed page: {diff}")
     return (f"{kind}({docs[idx]!r})", False, "no dirtying page of the replay catalogue reaches the havoc state")
 
-# ---- generated conditions (static: one per catalogue document and pre_expand setting)
-
-def hv_parse_0(bol: bool, wsp: bool, linenum: int, pre_parse: bool, supp: bool, sec: str, has_sec: bool, junk: str, smc: int, pstack: bool) -> bool:
-    """
-    pre: len(junk) <= 3 and len(sec) <= 3
-    post: _
-    """
-    havoc(bol, wsp, linenum, pre_parse, supp, sec, has_sec, junk, smc, pstack)
-    return run_parse(ctx, PARSE_DOCS[0]) == EXP_PARSE[0]
-
-
-def replay_hv_parse_0(bol, wsp, linenum, pre_parse, supp, sec, has_sec, junk, smc, pstack):
-    return find_history("parse", 0, False)
-
-
-def hv_parse_0_pre(bol: bool, wsp: bool, linenum: int, pre_parse: bool, supp: bool, sec: str, has_sec: bool, junk: str, smc: int, pstack: bool) -> bool:
-    """
-    pre: len(junk) <= 3 and len(sec) <= 3
-    post: _
-    """
-    havoc(bol, wsp, linenum, pre_parse, supp, sec, has_sec, junk, smc, pstack)
-    return run_parse(ctx, PARSE_DOCS[0], pre_expand=True) == EXP_PARSE_PRE[0]
-
-
-def replay_hv_parse_0_pre(bol, wsp, linenum, pre_parse, supp, sec, has_sec, junk, smc, pstack):
-    return find_history("parse", 0, True)
-
-
-def hv_parse_1(bol: bool, wsp: bool, linenum: int, pre_parse: bool, supp: bool, sec: str, has_sec: bool, junk: str, smc: int, pstack: bool) -> bool:
-    """
-    pre: len(junk) <= 3 and len(sec) <= 3
-    post: _
-    """
-    havoc(bol, wsp, linenum, pre_parse, supp, sec, has_sec, junk, smc, pstack)
-    return run_parse(ctx, PARSE_DOCS[1]) == EXP_PARSE[1]
-
-
-def replay_hv_parse_1(bol, wsp, linenum, pre_parse, supp, sec, has_sec, junk, smc, pstack):
-    return find_history("parse", 1, False)
-
-
-def hv_parse_1_pre(bol: bool, wsp: bool, linenum: int, pre_parse: bool, supp: bool, sec: str, has_sec: bool, junk: str, smc: int, pstack: bool) -> bool:
-    """
-    pre: len(junk) <= 3 and len(sec) <= 3
-    post: _
-    """
-    havoc(bol, wsp, linenum, pre_parse, supp, sec, has_sec, junk, smc, pstack)
-    return run_parse(ctx, PARSE_DOCS[1], pre_expand=True) == EXP_PARSE_PRE[1]
-
-
-def replay_hv_parse_1_pre(bol, wsp, linenum, pre_parse, supp, sec, has_sec, junk, smc, pstack):
-    return find_history("parse", 1, True)
-
-
-def hv_parse_2(bol: bool, wsp: bool, linenum: int, pre_parse: bool, supp: bool, sec: str, has_sec: bool, junk: str, smc: int, pstack: bool) -> bool:
-    """
-    pre: len(junk) <= 3 and len(sec) <= 3
-    post: _
-    """
-    havoc(bol, wsp, linenum, pre_parse, supp, sec, has_sec, junk, smc, pstack)
-    return run_parse(ctx, PARSE_DOCS[2]) == EXP_PARSE[2]
-
-
-def replay_hv_parse_2(bol, wsp, linenum, pre_parse, supp, sec, has_sec, junk, smc, pstack):
-    return find_history("parse", 2, False)
-
-
-def hv_parse_2_pre(bol: bool, wsp: bool, linenum: int, pre_parse: bool, supp: bool, sec: str, has_sec: bool, junk: str, smc: int, pstack: bool) -> bool:
-    """
-    pre: len(junk) <= 3 and len(sec) <= 3
-    post: _
-    """
-    havoc(bol, wsp, linenum, pre_parse, supp, sec, has_sec, junk, smc, pstack)
-    return run_parse(ctx, PARSE_DOCS[2], pre_expand=True) == EXP_PARSE_PRE[2]
-
-
-def replay_hv_parse_2_pre(bol, wsp, linenum, pre_parse, supp, sec, has_sec, junk, smc, pstack):
-    return find_history("parse", 2, True)
-
-
-def hv_parse_3(bol: bool, wsp: bool, linenum: int, pre_parse: bool, supp: bool, sec: str, has_sec: bool, junk: str, smc: int, pstack: bool) -> bool:
-    """
-    pre: len(junk) <= 3 and len(sec) <= 3
-    post: _
-    """
-    havoc(bol, wsp, linenum, pre_parse, supp, sec, has_sec, junk, smc, pstack)
-    return run_parse(ctx, PARSE_DOCS[3]) == EXP_PARSE[3]
-
-
-def replay_hv_parse_3(bol, wsp, linenum, pre_parse, supp, sec, has_sec, junk, smc, pstack):
-    return find_history("parse", 3, False)
-
-
-def hv_parse_3_pre(bol: bool, wsp: bool, linenum: int, pre_parse: bool, supp: bool, sec: str, has_sec: bool, junk: str, smc: int, pstack: bool) -> bool:
-    """
-    pre: len(junk) <= 3 and len(sec) <= 3
-    post: _
-    """
-    havoc(bol, wsp, linenum, pre_parse, supp, sec, has_sec, junk, smc, pstack)
-    return run_parse(ctx, PARSE_DOCS[3], pre_expand=True) == EXP_PARSE_PRE[3]
-
-
-def replay_hv_parse_3_pre(bol, wsp, linenum, pre_parse, supp, sec, has_sec, junk, smc, pstack):
-    return find_history("parse", 3, True)
-
-
-def hv_parse_4(bol: bool, wsp: bool, linenum: int, pre_parse: bool, supp: bool, sec: str, has_sec: bool, junk: str, smc: int, pstack: bool) -> bool:
-    """
-    pre: len(junk) <= 3 and len(sec) <= 3
-    post: _
-    """
-    havoc(bol, wsp, linenum, pre_parse, supp, sec, has_sec, junk, smc, pstack)
-    return run_parse(ctx, PARSE_DOCS[4]) == EXP_PARSE[4]
-
-
-def replay_hv_parse_4(bol, wsp, linenum, pre_parse, supp, sec, has_sec, junk, smc, pstack):
-    return find_history("parse", 4, False)
-
-
-def hv_parse_4_pre(bol: bool, wsp: bool, linenum: int, pre_parse: bool, supp: bool, sec: str, has_sec: bool, junk: str, smc: int, pstack: bool) -> bool:
-    """
-    pre: len(junk) <= 3 and len(sec) <= 3
-    post: _
-    """
-    havoc(bol, wsp, linenum, pre_parse, supp, sec, has_sec, junk, smc, pstack)
-    return run_parse(ctx, PARSE_DOCS[4], pre_expand=True) == EXP_PARSE_PRE[4]
-
-
-def replay_hv_parse_4_pre(bol, wsp, linenum, pre_parse, supp, sec, has_sec, junk, smc, pstack):
-    return find_history("parse", 4, True)
-
-
-def hv_parse_5(bol: bool, wsp: bool, linenum: int, pre_parse: bool, supp: bool, sec: str, has_sec: bool, junk: str, smc: int, pstack: bool) -> bool:
-    """
-    pre: len(junk) <= 3 and len(sec) <= 3
-    post: _
-    """
-    havoc(bol, wsp, linenum, pre_parse, supp, sec, has_sec, junk, smc, pstack)
-    return run_parse(ctx, PARSE_DOCS[5]) == EXP_PARSE[5]
-
-
-def replay_hv_parse_5(bol, wsp, linenum, pre_parse, supp, sec, has_sec, junk, smc, pstack):
-    return find_history("parse", 5, False)
-
-
-def hv_parse_5_pre(bol: bool, wsp: bool, linenum: int, pre_parse: bool, supp: bool, sec: str, has_sec: bool, junk: str, smc: int, pstack: bool) -> bool:
-    """
-    pre: len(junk) <= 3 and len(sec) <= 3
-    post: _
-    """
-    havoc(bol, wsp, linenum, pre_parse, supp, sec, has_sec, junk, smc, pstack)
-    return run_parse(ctx, PARSE_DOCS[5], pre_expand=True) == EXP_PARSE_PRE[5]
-
-
-def replay_hv_parse_5_pre(bol, wsp, linenum, pre_parse, supp, sec, has_sec, junk, smc, pstack):
-    return find_history("parse", 5, True)
-
-
-def hv_parse_6(bol: bool, wsp: bool, linenum: int, pre_parse: bool, supp: bool, sec: str, has_sec: bool, junk: str, smc: int, pstack: bool) -> bool:
-    """
-    pre: len(junk) <= 3 and len(sec) <= 3
-    post: _
-    """
-    havoc(bol, wsp, linenum, pre_parse, supp, sec, has_sec, junk, smc, pstack)
-    return run_parse(ctx, PARSE_DOCS[6]) == EXP_PARSE[6]
-
-
-def replay_hv_parse_6(bol, wsp, linenum, pre_parse, supp, sec, has_sec, junk, smc, pstack):
-    return find_history("parse", 6, False)
-
-
-def hv_parse_6_pre(bol: bool, wsp: bool, linenum: int, pre_parse: bool, supp: bool, sec: str, has_sec: bool, junk: str, smc: int, pstack: bool) -> bool:
-    """
-    pre: len(junk) <= 3 and len(sec) <= 3
-    post: _
-    """
-    havoc(bol, wsp, linenum, pre_parse, supp, sec, has_sec, junk, smc, pstack)
-    return run_parse(ctx, PARSE_DOCS[6], pre_expand=True) == EXP_PARSE_PRE[6]
-
-
-def replay_hv_parse_6_pre(bol, wsp, linenum, pre_parse, supp, sec, has_sec, junk, smc, pstack):
-    return find_history("parse", 6, True)
-
-
-def hv_expand_0(bol: bool, wsp: bool, linenum: int, pre_parse: bool, supp: bool, sec: str, has_sec: bool, junk: str, smc: int, pstack: bool) -> bool:
-    """
-    pre: len(junk) <= 3 and len(sec) <= 3
-    post: _
-    """
-    havoc(bol, wsp, linenum, pre_parse, supp, sec, has_sec, junk, smc, pstack)
-    return run_expand(ctx, EXPAND_DOCS[0]) == EXP_EXPAND[0]
-
-
-def replay_hv_expand_0(bol, wsp, linenum, pre_parse, supp, sec, has_sec, junk, smc, pstack):
-    return find_history("expand", 0, False)
-
-
-def hv_expand_0_pre(bol: bool, wsp: bool, linenum: int, pre_parse: bool, supp: bool, sec: str, has_sec: bool, junk: str, smc: int, pstack: bool) -> bool:
-    """
-    pre: len(junk) <= 3 and len(sec) <= 3
-    post: _
-    """
-    havoc(bol, wsp, linenum, pre_parse, supp, sec, has_sec, junk, smc, pstack)
-    return run_expand(ctx, EXPAND_DOCS[0], pre_expand=True) == EXP_EXPAND_PRE[0]
-
-
-def replay_hv_expand_0_pre(bol, wsp, linenum, pre_parse, supp, sec, has_sec, junk, smc, pstack):
-    return find_history("expand", 0, True)
-
-
-def hv_expand_1(bol: bool, wsp: bool, linenum: int, pre_parse: bool, supp: bool, sec: str, has_sec: bool, junk: str, smc: int, pstack: bool) -> bool:
-    """
-    pre: len(junk) <= 3 and len(sec) <= 3
-    post: _
-    """
-    havoc(bol, wsp, linenum, pre_parse, supp, sec, has_sec, junk, smc, pstack)
-    return run_expand(ctx, EXPAND_DOCS[1]) == EXP_EXPAND[1]
-
-
-def replay_hv_expand_1(bol, wsp, linenum, pre_parse, supp, sec, has_sec, junk, smc, pstack):
-    return find_history("expand", 1, False)
-
-
-def hv_expand_1_pre(bol: bool, wsp: bool, linenum: int, pre_parse: bool, supp: bool, sec: str, has_sec: bool, junk: str, smc: int, pstack: bool) -> bool:
-    """
-    pre: len(junk) <= 3 and len(sec) <= 3
-    post: _
-    """
-    havoc(bol, wsp, linenum, pre_parse, supp, sec, has_sec, junk, smc, pstack)
-    return run_expand(ctx, EXPAND_DOCS[1], pre_expand=True) == EXP_EXPAND_PRE[1]
-
-
-def replay_hv_expand_1_pre(bol, wsp, linenum, pre_parse, supp, sec, has_sec, junk, smc, pstack):
-    return find_history("expand", 1, True)
-
-
-def hv_expand_2(bol: bool, wsp: bool, linenum: int, pre_parse: bool, supp: bool, sec: str, has_sec: bool, junk: str, smc: int, pstack: bool) -> bool:
-    """
-    pre: len(junk) <= 3 and len(sec) <= 3
-    post: _
-    """
-    havoc(bol, wsp, linenum, pre_parse, supp, sec, has_sec, junk, smc, pstack)
-    return run_expand(ctx, EXPAND_DOCS[2]) == EXP_EXPAND[2]
-
-
-def replay_hv_expand_2(bol, wsp, linenum, pre_parse, supp, sec, has_sec, junk, smc, pstack):
-    return find_history("expand", 2, False)
-
-
-def hv_expand_2_pre(bol: bool, wsp: bool, linenum: int, pre_parse: bool, supp: bool, sec: str, has_sec: bool, junk: str, smc: int, pstack: bool) -> bool:
-    """
-    pre: len(junk) <= 3 and len(sec) <= 3
-    post: _
-    """
-    havoc(bol, wsp, linenum, pre_parse, supp, sec, has_sec, junk, smc, pstack)
-    return run_expand(ctx, EXPAND_DOCS[2], pre_expand=True) == EXP_EXPAND_PRE[2]
-
-
-def replay_hv_expand_2_pre(bol, wsp, linenum, pre_parse, supp, sec, has_sec, junk, smc, pstack):
-    return find_history("expand", 2, True)
